@@ -13,7 +13,7 @@ use std::sync::{Arc, Mutex};
 pub fn def() -> PropDef {
     PropDef {
         id: "C17",
-        rule: "histories: for a corpus of (function, argument) items over parse/uncompress/compress/rename/RR::from_string/raw_name_from_str/query, the result of every item computed in a fresh process is the baseline; every ordered pair (and, thorough, triple) g(y); f(x) run back to back on one thread, and every ordered triple of calls of the same function over up to 14 arguments each, must reproduce the baselines. schedules: 2 (thorough: also 3) real threads each running one item with the library's yield points (per name emitted / copied / replaced, per record parsed) as scheduling points, every interleaving with at most 2 (thorough 3) preemptions; randomness: empty()/query() twice differ at most in the id. supplementary, outside the exhaustive claim: the concurrent items on 4 free-running threads (sampling; reaches windows without a yield point). distinct classes = (kind, function pair, outcome kinds)",
+        rule: "histories: for a corpus of (function, argument) items over parse/uncompress/compress/rename/RR::from_string/raw_name_from_str/query/insert_rr, the result of every item computed in a fresh process is the baseline; every ordered pair (and, thorough, triple) g(y); f(x) run back to back on one thread, and every ordered triple of calls of the same function over up to 14 arguments each, must reproduce the baselines. schedules: 2 (thorough: also 3) real threads each running one item with the library's yield points (per name emitted / copied / replaced, per record parsed) as scheduling points, every interleaving with at most 2 (thorough 3) preemptions; randomness: empty()/query() twice differ at most in the id. supplementary, outside the exhaustive claim: the concurrent items on 4 free-running threads (sampling; reaches windows without a yield point). distinct classes = (kind, function pair, outcome kinds)",
         run,
         replay,
         bounds: |t| json!({"corpus_items": items().len(), "concurrent_items": conc_items().len(), "history_length": t.pick(2, 3), "threads": t.pick(vec![2], vec![2, 3]), "preemption_bound": t.pick(2, 3), "max_executions_per_tuple": 30000}),
@@ -44,6 +44,8 @@ pub enum Item {
     NameFromStr(Vec<u8>, Option<Name>),
     /// query(name, A, IN) without its transaction id
     Query(Vec<u8>),
+    /// parse the packet, insert the question b.a/A/IN (or, with a question present, one more answer), return bytes
+    Insert(Vec<u8>),
 }
 
 impl Item {
@@ -56,6 +58,7 @@ impl Item {
             Item::FromString(_) => "from_string",
             Item::NameFromStr(..) => "raw_name_from_str",
             Item::Query(_) => "query",
+            Item::Insert(_) => "insert_rr",
         }
     }
     fn to_json(&self) -> Value {
@@ -67,6 +70,7 @@ impl Item {
             Item::FromString(t) => json!({"f": "from_string", "text": t}),
             Item::NameFromStr(t, z) => json!({"f": "raw_name_from_str", "x": hex(t), "z": z.as_ref().map(|z| hex(z))}),
             Item::Query(t) => json!({"f": "query", "x": hex(t)}),
+            Item::Insert(x) => json!({"f": "insert_rr", "x": hex(x)}),
         }
     }
     fn from_json(v: &Value) -> Item {
@@ -78,6 +82,7 @@ impl Item {
             "rename" => Item::Rename(h("x"), h("t"), h("s"), v["m"].as_bool().unwrap_or(false)),
             "raw_name_from_str" => Item::NameFromStr(h("x"), v["z"].as_str().map(unhex)),
             "query" => Item::Query(h("x")),
+            "insert_rr" => Item::Insert(h("x")),
             _ => Item::FromString(v["text"].as_str().unwrap_or("").to_string()),
         }
     }
@@ -86,10 +91,9 @@ impl Item {
 pub fn eval(it: &Item) -> String {
     // a call that loops (e.g. an unchecked reader fed a packet that should have been rejected) must end as an
     // observable result, not as a hung worker: the hook counter doubles as a step ceiling
-    verif_hooks::reset();
-    verif_hooks::set_ceiling(3_000_000);
+    crate::subj::arm_ceiling(3_000_000);
     let s = eval_inner(it);
-    verif_hooks::set_ceiling(u64::MAX);
+    crate::subj::disarm_steps();
     s
 }
 
@@ -121,6 +125,27 @@ fn eval_inner(it: &Item) -> String {
         Item::NameFromStr(t, z) => match r#gen::raw_name_from_str(t, z.as_deref()) {
             Ok(n) => format!("ok:{}", hex(&n)),
             Err(e) => format!("err:{}", e),
+        },
+        Item::Insert(x) => match if x.len() == 12 {
+            // a header alone is not a packet the parser takes: a synthesised empty packet given these header bytes
+            let mut e = ParsedPacket::empty();
+            e.packet_mut()[..4].copy_from_slice(&x[..4]);
+            Ok(e)
+        } else {
+            crate::subj::parse(x)
+        } {
+            Ok(mut p) => {
+                let r = if p.offset_question.is_none() {
+                    r#gen::RR::new_question(b"b.a", Type::A, Class::IN).and_then(|rr| p.insert_rr(Section::Question, rr))
+                } else {
+                    p.insert_rr_from_string(Section::Answer, "b.a. 7 IN A 1.2.3.4")
+                };
+                match r {
+                    Ok(()) => format!("ok:{}", hex(p.packet())),
+                    Err(e) => format!("err:{}:{}", e, hex(p.packet())),
+                }
+            }
+            Err(e) => format!("perr:{}", e),
         },
         Item::Query(t) => match r#gen::query(t, Type::A, Class::IN) {
             Ok(p) => format!("ok:{}:{:?}", hex(&p.packet()[2..]), {
@@ -264,6 +289,16 @@ pub fn items() -> Vec<Item> {
         v.push(Item::Uncompress(p.clone()));
         v.push(Item::Rename(p.clone(), nm("k"), nm("nomatch"), false));
         v.push(Item::Parse(p));
+    }
+    // insertion into packets with special transaction ids (0, 0xffff), with and without a question
+    for id in [0u16, 0xffff, 0x1234] {
+        for resp in [false, true] {
+            let mut noq = vec![(id >> 8) as u8, id as u8, if resp { 0x80 } else { 0x01 }, 0, 0, 0, 0, 0, 0, 0, 0, 0];
+            v.push(Item::Insert(noq.clone()));
+            noq[5] = 1;
+            noq.extend_from_slice(&[1, b'b', 1, b'a', 0, 0, 1, 0, 1]);
+            v.push(Item::Insert(noq));
+        }
     }
     // host-name conversion and query synthesis: case twins, zone / no zone, failures between successes
     {
